@@ -1,7 +1,8 @@
 import LunarVerif.Proofs.C06
 /-!
-Helper lemmas for C06, part 3: every waiter the loop could serve is in the heap, so the minimum the
-loop pops is a minimum over all waiting requests (priority order across different priorities).
+Helper lemmas for C06, part 3: every waiter the loop could serve is in the heap and every heap entry
+carries the timestamp of its request's FIRST enqueue, so the minimum the loop pops is a minimum
+over all waiting requests for (priority, arrival order).  Every schedule, shutdown included.
 -/
 namespace LunarVerif.C06
 
@@ -66,21 +67,25 @@ theorem hle_prio (a b : HItem) (h : hle a b = true) : a.prio ≤ b.prio := by
   split at h <;> simp_all <;> omega
 
 structure InvH (s : St) : Prop where
-  hi : ∀ h ∈ s.heap, h.id < s.n ∧ h.prio = (s.reqs h.id).prio
+  hi : ∀ h ∈ s.heap, h.id < s.n ∧ h.prio = (s.reqs h.id).prio ∧ (s.reqs h.id).pushed = true ∧
+         h.ts = (s.reqs h.id).pushTs
   el : ∀ i, (s.reqs i).pc = .parked → (s.reqs i).st = .enqueued → s.loop ≠ .popped i → ∃ h ∈ s.heap, h.id = i
   rp : ∀ i, s.loop = .repushed i → ∃ h ∈ s.heap, h.id = i
   uw : ∀ i, ((s.reqs i).pc = .unwatched ∨ (s.reqs i).pc = .removed) → (s.reqs i).st = .processed
   pk : ∀ i, ((s.reqs i).pc = .parked ∨ (s.reqs i).pc = .registered) → (s.reqs i).inMap = true
+  g1 : ∀ i, (s.reqs i).pushed = true → (s.reqs i).firstAt = none → (s.reqs i).pc = .removed
+  g2 : ∀ i t, (s.reqs i).firstAt = some t → (s.reqs i).pushed = true ∧ t = (s.reqs i).pushTs
+  g3 : ∀ i, (s.reqs i).pushed = true → (s.reqs i).pushTs < s.seq
 
 local macro "h_auto" : tactic =>
-  `(tactic| (constructor <;> (try intro j) <;> (try simp only [St.upd, St.emit, St.signal]) <;>
+  `(tactic| (constructor <;> (try intro j) <;> (try simp only [St.upd, St.emit, St.signal, St.enq]) <;>
       grind [holdsL, holdsW, isReturned, isDraining]))
 
 theorem invH_init (t0 : Nat) : InvH (St.init t0) := by
   constructor <;> simp [St.init]
 
 theorem invH_arrive (cfg : Cfg) (s : St) (p : Nat) (hA : InvA s) (h : InvH s) : InvH (stepArrive cfg s p) := by
-  obtain ⟨hi, el, rp, uw, pk⟩ := h
+  obtain ⟨hi, el, rp, uw, pk, g1, g2, g3⟩ := h
   have hn := hA.fresh s.n (Nat.le_refl _)
   have hid : ∀ h ∈ s.heap, h.id ≠ s.n := fun h hh e => by have := (hi h hh).1; omega
   unfold stepArrive
@@ -89,14 +94,37 @@ theorem invH_arrive (cfg : Cfg) (s : St) (p : Nat) (hA : InvA s) (h : InvH s) : 
   · h_auto
 
 theorem invH_register (s : St) (i : Nat) (hA : InvA s) (h : InvH s) : InvH (stepRegister s i) := by
-  obtain ⟨hi, el, rp, uw, pk⟩ := h
+  obtain ⟨hi, el, rp, uw, pk, g1, g2, g3⟩ := h
   unfold stepRegister
   split
   · h_auto
   · constructor <;> assumption
 
+/-- What `Enqueue` of request `i` does to the stamp facts, given that `i` is a live request. -/
+theorem enq_facts (s : St) (i : Nat) (hlt : i < s.n) (hlive : (s.reqs i).pc ≠ .removed) (h : InvH s) :
+    let ts := match (s.reqs i).firstAt with | some t => t | none => s.seq
+    let pt := if (s.reqs i).pushed then (s.reqs i).pushTs else ts
+    ts = pt ∧ pt < s.seq + 1 ∧ (∀ x ∈ s.heap, x.id = i → x.ts = pt) := by
+  obtain ⟨hi, el, rp, uw, pk, g1, g2, g3⟩ := h
+  intro ts pt
+  cases hf : (s.reqs i).firstAt with
+  | some t =>
+    have := g2 i t hf
+    have h3 := g3 i this.1
+    simp only [ts, pt, hf, this.1, if_true]
+    refine ⟨this.2, by omega, fun x hx e => ?_⟩
+    have := (hi x hx).2.2.2; rw [e] at this; exact this
+  | none =>
+    have hnp : (s.reqs i).pushed = false := by
+      cases hp : (s.reqs i).pushed
+      · rfl
+      · exact absurd (g1 i hp hf) hlive
+    simp only [ts, pt, hf, hnp, Bool.false_eq_true, if_false]
+    refine ⟨?_, by omega, fun x hx e => ?_⟩
+    · first | rfl | trivial
+    · have := (hi x hx).2.2.1; rw [e, hnp] at this; cases this
+
 theorem invH_push (s : St) (i : Nat) (hA : InvA s) (h : InvH s) : InvH (stepPush s i) := by
-  obtain ⟨hi, el, rp, uw, pk⟩ := h
   unfold stepPush
   split
   · rename_i hg
@@ -104,36 +132,49 @@ theorem invH_push (s : St) (i : Nat) (hA : InvA s) (h : InvH s) : InvH (stepPush
       rcases Nat.lt_or_ge i s.n with h | h
       · exact h
       · have := (hA.fresh i h).1; rw [hg] at this; cases this
-    refine ⟨?_, ?_, ?_, ?_, ?_⟩
+    have ef := enq_facts s i hlt (by rw [hg]; simp) h
+    obtain ⟨hi, el, rp, uw, pk, g1, g2, g3⟩ := h
+    simp only at ef
+    obtain ⟨e1, e2, e3⟩ := ef
+    refine ⟨?_, ?_, ?_, ?_, ?_, ?_, ?_, ?_⟩
     · intro h hh
-      simp only [St.upd, St.emit] at hh ⊢
+      simp only [St.upd, St.emit, St.enq] at hh ⊢
       rcases List.mem_cons.1 hh with e | e
-      · subst e; simp [hlt]
-      · have := hi h e; grind
+      · subst e; simp only [if_true]; exact ⟨hlt, (by first | rfl | trivial), (by first | rfl | trivial), e1⟩
+      · have := hi h e
+        have h3 := e3 h e
+        by_cases hid : h.id = i
+        · simp only [hid, if_true]; rw [hid] at this; exact ⟨hlt, this.2.1, (by first | rfl | trivial), h3 hid⟩
+        · simp only [hid, if_false]; exact this
     · intro j hp hs hl
-      simp only [St.upd, St.emit] at hp hs hl ⊢
+      simp only [St.upd, St.emit, St.enq] at hp hs hl ⊢
       by_cases hji : j = i
       · exact ⟨_, List.mem_cons_self, hji.symm⟩
       · simp only [hji, if_false] at hp hs
         obtain ⟨h, hh, he⟩ := el j hp hs hl
         exact ⟨h, List.mem_cons_of_mem _ hh, he⟩
     · intro j hl
-      simp only [St.upd, St.emit] at hl ⊢
+      simp only [St.upd, St.emit, St.enq] at hl ⊢
       obtain ⟨h, hh, he⟩ := rp j hl
       exact ⟨h, List.mem_cons_of_mem _ hh, he⟩
-    · intro j; simp only [St.upd, St.emit]; grind
-    · intro j; simp only [St.upd, St.emit]; grind
-  · constructor <;> assumption
+    · intro j; simp only [St.upd, St.emit, St.enq]; grind
+    · intro j; simp only [St.upd, St.emit, St.enq]; grind
+    · intro j; simp only [St.upd, St.emit, St.enq]; grind
+    · intro j t; simp only [St.upd, St.emit, St.enq]; grind
+    · intro j; simp only [St.upd, St.emit, St.enq]
+      have := g3 j
+      split <;> grind
+  · exact h
 
 theorem invH_wake (s : St) (i : Nat) (hA : InvA s) (h : InvH s) : InvH (stepWake s i) := by
-  obtain ⟨hi, el, rp, uw, pk⟩ := h
+  obtain ⟨hi, el, rp, uw, pk, g1, g2, g3⟩ := h
   unfold stepWake
   split
   · h_auto
   · constructor <;> assumption
 
 theorem invH_unwatch (s : St) (i : Nat) (hA : InvA s) (h : InvH s) : InvH (stepUnwatch s i) := by
-  obtain ⟨hi, el, rp, uw, pk⟩ := h
+  obtain ⟨hi, el, rp, uw, pk, g1, g2, g3⟩ := h
   have hret : isReturned (s.reqs i).pc = true → (s.reqs i).st = .processed := by
     intro h
     cases hp : (s.reqs i).pc <;> simp [isReturned, hp] at h
@@ -144,8 +185,8 @@ theorem invH_unwatch (s : St) (i : Nat) (hA : InvA s) (h : InvH s) : InvH (stepU
   · constructor <;> assumption
 
 theorem invH_heapRemove (s : St) (i : Nat) (hA : InvA s) (h : InvH s) : InvH (stepHeapRemove s i) := by
-  obtain ⟨hi, el, rp, uw, pk⟩ := h
-  obtain ⟨nc, np, lp, own, excl, wg, dn, rt, rs, qk, gq, fresh⟩ := hA
+  obtain ⟨hi, el, rp, uw, pk, g1, g2, g3⟩ := h
+  obtain ⟨np, own, excl, wg, dn, rt, rs, qk, gq, fresh⟩ := hA
   unfold stepHeapRemove
   split
   · rename_i hg
@@ -154,7 +195,7 @@ theorem invH_heapRemove (s : St) (i : Nat) (hA : InvA s) (h : InvH s) : InvH (st
       intro h hh hne
       exact (List.mem_eraseP_of_neg (by simpa using hne)).2 hh
     have sub : ∀ h, h ∈ (s.heap.eraseP fun h => h.id == i) → h ∈ s.heap := fun h hh => List.mem_of_mem_eraseP hh
-    constructor
+    refine ⟨?_, ?_, ?_, ?_, ?_, ?_, ?_, ?_⟩
     · intro h hh
       have := hi h (sub h hh)
       simp only [St.upd]; grind
@@ -173,26 +214,36 @@ theorem invH_heapRemove (s : St) (i : Nat) (hA : InvA s) (h : InvH s) : InvH (st
       exact ⟨h, keep h hh (by omega), he⟩
     · intro j; simp only [St.upd]; grind
     · intro j; simp only [St.upd]; grind
+    · intro j; simp only [St.upd]; grind
+    · intro j t; simp only [St.upd]; grind
+    · intro j; simp only [St.upd]; grind
   · constructor <;> assumption
 
 theorem invH_loopFire (s : St) (hA : InvA s) (h : InvH s) : InvH (stepLoopFire s) := by
-  obtain ⟨hi, el, rp, uw, pk⟩ := h
+  obtain ⟨hi, el, rp, uw, pk, g1, g2, g3⟩ := h
   unfold stepLoopFire
   split
-  · rw [hA.nc]
-    h_auto
+  · split <;> h_auto
   · constructor <;> assumption
 
 theorem invH_scan (cfg : Cfg) (s : St) (h : InvH s) : InvH (stepScan cfg s) := by
-  obtain ⟨hi, el, rp, uw, pk⟩ := h
+  obtain ⟨hi, el, rp, uw, pk, g1, g2, g3⟩ := h
   unfold stepScan
   split
   · h_auto
   · constructor <;> assumption
 
+theorem invH_cancel (s : St) (h : InvH s) : InvH (stepCancel s) := by
+  obtain ⟨hi, el, rp, uw, pk, g1, g2, g3⟩ := h
+  unfold stepCancel
+  split
+  · constructor <;> assumption
+  · h_auto
+
 theorem invH_loop (cfg : Cfg) (s : St) (k : Nat) (hA : InvA s) (h : InvH s) : InvH (stepLoop cfg s k) := by
-  obtain ⟨hi, el, rp, uw, pk⟩ := h
-  obtain ⟨nc, np, lp, own, excl, wg, dn, rt, rs, qk, gq, fresh⟩ := hA
+  have h0 := h
+  obtain ⟨hi, el, rp, uw, pk, g1, g2, g3⟩ := h
+  obtain ⟨np, own, excl, wg, dn, rt, rs, qk, gq, fresh⟩ := hA
   unfold stepLoop
   split
   · constructor <;> assumption
@@ -206,7 +257,7 @@ theorem invH_loop (cfg : Cfg) (s : St) (k : Nat) (hA : InvA s) (h : InvH s) : In
         intro h hh hne
         exact (List.mem_erase_of_ne (by intro e; subst e; exact hne rfl)).2 hh
       have sub : ∀ h, h ∈ s.heap.erase m → h ∈ s.heap := fun h hh => List.mem_of_mem_erase hh
-      constructor
+      refine ⟨?_, ?_, ?_, ?_, ?_, ?_, ?_, ?_⟩
       · intro h hh; exact hi h (sub h hh)
       · intro j hp hs hl
         simp only [St.emit] at hp hs hl ⊢
@@ -216,9 +267,12 @@ theorem invH_loop (cfg : Cfg) (s : St) (k : Nat) (hA : InvA s) (h : InvH s) : In
       · intro j hl; simp [St.emit] at hl
       · intro j; simp only [St.emit]; exact uw j
       · intro j; simp only [St.emit]; exact pk j
+      · intro j; simp only [St.emit]; exact g1 j
+      · intro j t; simp only [St.emit]; exact g2 j t
+      · intro j; simp only [St.emit]; exact g3 j
   · rename_i i heq
     split
-    · refine ⟨?_, ?_, ?_, ?_, ?_⟩
+    · refine ⟨?_, ?_, ?_, ?_, ?_, ?_, ?_, ?_⟩
       · intro h hh; simp only [St.upd]; have := hi h hh; grind
       · intro j hp hs hl
         simp only [St.upd] at hp hs hl ⊢
@@ -229,8 +283,11 @@ theorem invH_loop (cfg : Cfg) (s : St) (k : Nat) (hA : InvA s) (h : InvH s) : In
       · intro j hl; simp at hl
       · intro j; simp only [St.upd]; grind
       · intro j; simp only [St.upd]; grind
+      · intro j; simp only [St.upd]; grind
+      · intro j t; simp only [St.upd]; grind
+      · intro j; simp only [St.upd]; grind
     · rename_i hg
-      refine ⟨hi, ?_, ?_, uw, pk⟩
+      refine ⟨hi, ?_, ?_, uw, pk, g1, g2, g3⟩
       · intro j hp hs hl
         by_cases hji : j = i
         · subst hji
@@ -248,26 +305,43 @@ theorem invH_loop (cfg : Cfg) (s : St) (k : Nat) (hA : InvA s) (h : InvH s) : In
       rcases Nat.lt_or_ge i s.n with h | h
       · exact h
       · have := (fresh i h).2.1; rw [hp] at this; cases this
-    refine ⟨?_, ?_, ?_, ?_, ?_⟩
+    have hlive : (s.reqs i).pc ≠ .removed := by
+      intro e; have := uw i (Or.inr e); rw [hp] at this; cases this
+    have ef := enq_facts s i hlt hlive h0
+    simp only at ef
+    obtain ⟨e1, e2, e3⟩ := ef
+    refine ⟨?_, ?_, ?_, ?_, ?_, ?_, ?_, ?_⟩
     · intro h hh
-      simp only [St.emit] at hh ⊢
+      simp only [St.emit, St.enq, St.upd] at hh ⊢
       rcases List.mem_cons.1 hh with e | e
-      · subst e; simp [hlt]
-      · exact hi h e
+      · subst e; simp only [if_true]; exact ⟨hlt, (by first | rfl | trivial), (by first | rfl | trivial), e1⟩
+      · have := hi h e
+        have h3 := e3 h e
+        by_cases hid : h.id = i
+        · simp only [hid, if_true]; rw [hid] at this; exact ⟨hlt, this.2.1, (by first | rfl | trivial), h3 hid⟩
+        · simp only [hid, if_false]; exact this
     · intro j hp' hs hl
-      simp only [St.emit] at hp' hs hl ⊢
+      simp only [St.emit, St.enq, St.upd] at hp' hs hl ⊢
+      have hji : j ≠ i := by
+        intro e; subst e; simp at hs; rw [hp] at hs; cases hs
+      simp only [hji, if_false] at hp' hs
       obtain ⟨h, hh, he⟩ := el j hp' hs (by simp [heq])
       exact ⟨h, List.mem_cons_of_mem _ hh, he⟩
     · intro j hl
-      simp only [St.emit] at hl ⊢
+      simp only [St.emit, St.enq, St.upd] at hl ⊢
       injection hl with hl
       exact ⟨_, List.mem_cons_self, hl⟩
-    · intro j; simp only [St.emit]; exact uw j
-    · intro j; simp only [St.emit]; exact pk j
+    · intro j; simp only [St.emit, St.enq, St.upd]; grind
+    · intro j; simp only [St.emit, St.enq, St.upd]; grind
+    · intro j; simp only [St.emit, St.enq, St.upd]; grind
+    · intro j t; simp only [St.emit, St.enq, St.upd]; grind
+    · intro j; simp only [St.emit, St.enq, St.upd]
+      have := g3 j
+      split <;> grind
   · rename_i i heq
     have hp : (s.reqs i).st = .processing := (own i).2 (Or.inl (by simp [heq, holdsL]))
     have hr := rp i heq
-    refine ⟨?_, ?_, ?_, ?_, ?_⟩
+    refine ⟨?_, ?_, ?_, ?_, ?_, ?_, ?_, ?_⟩
     · intro h hh; simp only [St.upd]; have := hi h hh; grind
     · intro j hp' hs hl
       simp only [St.upd] at hp' hs hl ⊢
@@ -278,6 +352,9 @@ theorem invH_loop (cfg : Cfg) (s : St) (k : Nat) (hA : InvA s) (h : InvH s) : In
     · intro j hl; simp at hl
     · intro j; simp only [St.upd]; grind
     · intro j; simp only [St.upd]; grind
+    · intro j; simp only [St.upd]; grind
+    · intro j t; simp only [St.upd]; grind
+    · intro j; simp only [St.upd]; grind
   · rename_i i heq
     have hp : (s.reqs i).st = .processing := (own i).2 (Or.inl (by simp [heq, holdsL]))
     have hw : (s.reqs i).wg = 1 := by rw [wg i, hp]; simp
@@ -286,11 +363,23 @@ theorem invH_loop (cfg : Cfg) (s : St) (k : Nat) (hA : InvA s) (h : InvH s) : In
     simp only [hlt, if_false]
     h_auto
   · rename_i todo heq
-    exact absurd heq (lp.2 todo)
+    split
+    · split
+      · h_auto
+      · constructor <;> assumption
+    · rename_i i hk
+      split
+      · rename_i hg
+        have hw : (s.reqs i).wg = 1 := by rw [wg i, hg.2]; simp
+        have hlt : ¬ ((s.reqs i).wg - 1 < 0) := by omega
+        unfold St.signal
+        simp only [hlt, if_false]
+        h_auto
+      · h_auto
 
 theorem invH_watcher (s : St) (k : Nat) (hA : InvA s) (h : InvH s) : InvH (stepWatcher s k) := by
-  obtain ⟨hi, el, rp, uw, pk⟩ := h
-  obtain ⟨nc, np, lp, own, excl, wg, dn, rt, rs, qk, gq, fresh⟩ := hA
+  obtain ⟨hi, el, rp, uw, pk, g1, g2, g3⟩ := h
+  obtain ⟨np, own, excl, wg, dn, rt, rs, qk, gq, fresh⟩ := hA
   unfold stepWatcher
   split
   · constructor <;> assumption
@@ -310,13 +399,13 @@ theorem invH_watcher (s : St) (k : Nat) (hA : InvA s) (h : InvH s) : InvH (stepW
     simp only [hlt, if_false]
     h_auto
 
-theorem invH_step (cfg : Cfg) (s : St) (a : Act) (ha : a ≠ .cancel) (hA : InvA s) (h : InvH s) :
+theorem invH_step (cfg : Cfg) (s : St) (a : Act) (hA : InvA s) (h : InvH s) :
     InvH (step cfg s a) := by
   unfold step
   rw [hA.np]
   simp only [Bool.false_eq_true, if_false]
   cases a with
-  | advance d => obtain ⟨hi, el, rp, uw, pk⟩ := h; constructor <;> assumption
+  | advance d => obtain ⟨hi, el, rp, uw, pk, g1, g2, g3⟩ := h; constructor <;> assumption
   | arrive p => exact invH_arrive cfg s p hA h
   | register i => exact invH_register s i hA h
   | push i => exact invH_push s i hA h
@@ -327,15 +416,12 @@ theorem invH_step (cfg : Cfg) (s : St) (a : Act) (ha : a ≠ .cancel) (hA : InvA
   | loopStep k => exact invH_loop cfg s k hA h
   | wScan => exact invH_scan cfg s h
   | wStep k => exact invH_watcher s k hA h
-  | cancel => exact absurd rfl ha
+  | cancel => exact invH_cancel s h
 
-theorem invAH_run (cfg : Cfg) (acts : List Act) (s : St) (hn : noCancel acts) (hA : InvA s) (hH : InvH s) :
+theorem invAH_run (cfg : Cfg) (acts : List Act) (s : St) (hA : InvA s) (hH : InvH s) :
     InvA (run cfg s acts) ∧ InvH (run cfg s acts) := by
   induction acts generalizing s with
   | nil => exact ⟨hA, hH⟩
-  | cons a rest ih =>
-    have ha : a ≠ .cancel := fun e => hn (by simp [e])
-    have hr : noCancel rest := fun e => hn (by simp [e])
-    exact ih (step cfg s a) hr (invA_step cfg s a ha hA) (invH_step cfg s a ha hA hH)
+  | cons a rest ih => exact ih (step cfg s a) (invA_step cfg s a hA) (invH_step cfg s a hA hH)
 
 end LunarVerif.C06
